@@ -418,6 +418,9 @@ pub struct Surface {
     /// associativity makes it redundant: `(a - b) - c`, `(a ?? b) ?? c`
     #[serde(default)]
     pub redundant_parens: bool,
+    /// inside a module, refer to declarations of the same module by their bare name
+    #[serde(default)]
+    pub bare_in_module: bool,
 }
 
 #[derive(Clone, Debug, Serialize, Deserialize)]
